@@ -53,6 +53,30 @@ def buffers_disjoint(chk):
     chk.floor('bidirectional split sites', n, 1)
 
 
+def input_mode_is_read_only(chk):
+    """With one shared I/O buffer the engine is half-duplex: once the first bytes of an incoming record have been acknowledged it is
+    in input-only mode (BR_IO_IN) and the buffer holds the partial record.  No API call may assemble an outgoing record then
+    (bearssl_ssl.h on br_ssl_engine_flush: an empty record is built only "if the engine would be ready to accept" application data):
+    it would be written over the received bytes, which then fail their MAC - bytes lost.  FOLD: with iomode read as BR_IO_IN,
+    br_ssl_engine_flush cannot reach sendpld_flush, and sendpld_buf / br_ssl_engine_sendapp_buf offer nothing."""
+    from .. import oblig as _o
+    from ..oblig import Ob, FieldLoad, NOCALL, RET, ALL
+    s = 'src/ssl/ssl_engine.c'
+    L = irf.Layouts(build.load_unit(s))
+    f = L.field('br_ssl_engine_context', 'iomode')
+    if f is None:
+        raise AnalysisBroken('br_ssl_engine_context.iomode vanished')
+    cv = build.const_values(['BR_IO_IN', 'BR_IO_INOUT'])
+    R = 'input-mode-is-read-only'
+    _o.run_obligations(chk, [
+        Ob(s, 'br_ssl_engine_flush', FieldLoad(0, f[0], 'iomode', size=f[1]), ('pin', cv['BR_IO_IN']), NOCALL('sendpld_flush'), ('pin', cv['BR_IO_INOUT']),
+           'a forced flush while an incoming record is partially received (shared buffer) must not assemble a record over it', rule=R,
+           noinline=('sendpld_flush',)),
+        Ob(s, 'sendpld_buf', FieldLoad(0, f[0], 'iomode', size=f[1]), ('pin', cv['BR_IO_IN']), RET(0), ('pin', cv['BR_IO_INOUT']),
+           'no room for payload is offered in input-only mode', rule=R),
+    ])
+
+
 def run(tier):
     chk = report.Check('C06', tier,
                        'Static clauses of state/buffer consistency: the failure latch (only br_ssl_engine_fail and the two buffer-reset functions '
@@ -199,6 +223,7 @@ def run(tier):
             chk.ok(R, inst, F.where(c))
     chk.floor('obligations', len(chk.obls), 30)
     buffers_disjoint(chk)
+    input_mode_is_read_only(chk)
     from . import c19
     c19.close_order(chk)
     from .. import oblig as _ob2
